@@ -9,23 +9,30 @@
 //@@ section top
 pub use crate::npn4::{AigPattern, PatEdge, Tt4};
 
-/// stand-in for std::collections::HashMap: a finite map as an association list (new, with_capacity, get, insert)
+/// stand-in for std::collections::HashMap: a finite map as an association list (new, with_capacity, get, insert) in a fixed array of CAP slots
+/// (no heap: CBMC's array theory on growing Vec buffers does not finish); exceeding CAP fails the harness (never silently drops an entry)
 pub mod vpmap {
+    pub const CAP: usize = 6;
     pub struct HashMap<K, V> {
-        pub slots: Vec<(K, V)>,
+        pub slots: [Option<(K, V)>; CAP],
+        pub len: usize,
     }
-    impl<K: PartialEq, V> HashMap<K, V> {
+    impl<K: PartialEq + Copy, V: Copy> HashMap<K, V> {
         pub fn new() -> Self {
-            Self { slots: Vec::new() }
+            Self { slots: [None; CAP], len: 0 }
         }
-        pub fn with_capacity(n: usize) -> Self {
-            Self { slots: Vec::with_capacity(n) }
+        pub fn with_capacity(_n: usize) -> Self {
+            Self::new()
         }
         fn find(&self, k: &K) -> Option<usize> {
             let mut i = 0;
-            while i < self.slots.len() {
-                if self.slots[i].0 == *k {
-                    return Some(i);
+            while i < CAP {
+                if i < self.len {
+                    if let Some((kk, _)) = &self.slots[i] {
+                        if *kk == *k {
+                            return Some(i);
+                        }
+                    }
                 }
                 i += 1;
             }
@@ -33,18 +40,116 @@ pub mod vpmap {
         }
         pub fn get(&self, k: &K) -> Option<&V> {
             match self.find(k) {
-                Some(i) => Some(&self.slots[i].1),
+                Some(i) => match &self.slots[i] {
+                    Some((_, v)) => Some(v),
+                    None => None,
+                },
                 None => None,
             }
         }
         pub fn insert(&mut self, k: K, v: V) -> Option<V> {
             match self.find(&k) {
-                Some(i) => Some(std::mem::replace(&mut self.slots[i].1, v)),
+                Some(i) => {
+                    let old = self.slots[i];
+                    self.slots[i] = Some((k, v));
+                    old.map(|x| x.1)
+                }
                 None => {
-                    self.slots.push((k, v));
+                    assert!(self.len < CAP, "vpmap::HashMap stand-in: capacity exceeded");
+                    self.slots[self.len] = Some((k, v));
+                    self.len += 1;
                     None
                 }
             }
+        }
+    }
+}
+
+/// stand-in for std Vec inside the extracted AigModule (nodes, sinks): array-backed, fixed capacity, no heap. new / with_capacity / push / len / is_empty /
+/// Index / IndexMut / iter / `for x in &v`. A push beyond VCAP fails the harness. (std Vec growth on input-dependent paths makes CBMC's memory model explode:
+/// 5.4 M variables for three mk_and calls.)
+pub mod vpvec {
+    pub const VCAP: usize = 9;
+    #[derive(Clone, Debug)]
+    pub struct Vec<T> {
+        buf: [Option<T>; VCAP],
+        len: usize,
+    }
+    impl<T> Vec<T> {
+        pub fn new() -> Self {
+            Self { buf: [const { None }; VCAP], len: 0 }
+        }
+        pub fn with_capacity(_n: usize) -> Self {
+            Self::new()
+        }
+        pub fn push(&mut self, x: T) {
+            assert!(self.len < VCAP, "vpvec::Vec stand-in: capacity exceeded");
+            self.buf[self.len] = Some(x);
+            self.len += 1;
+        }
+        pub fn len(&self) -> usize {
+            self.len
+        }
+        pub fn is_empty(&self) -> bool {
+            self.len == 0
+        }
+        pub fn iter(&self) -> Iter<'_, T> {
+            Iter { v: self, i: 0 }
+        }
+        /// `vec![a, b, c]`
+        pub fn from_list<const N: usize>(a: [T; N]) -> Self {
+            let mut v = Self::new();
+            for x in a {
+                v.push(x);
+            }
+            v
+        }
+    }
+    impl<T: Clone> Vec<T> {
+        /// `vec![e; n]`
+        pub fn from_elem(e: T, n: usize) -> Self {
+            let mut v = Self::new();
+            let mut i = 0;
+            while i < n {
+                v.push(e.clone());
+                i += 1;
+            }
+            v
+        }
+    }
+    impl<T> std::ops::Index<usize> for Vec<T> {
+        type Output = T;
+        fn index(&self, i: usize) -> &T {
+            assert!(i < self.len, "index out of bounds");
+            self.buf[i].as_ref().unwrap()
+        }
+    }
+    impl<T> std::ops::IndexMut<usize> for Vec<T> {
+        fn index_mut(&mut self, i: usize) -> &mut T {
+            assert!(i < self.len, "index out of bounds");
+            self.buf[i].as_mut().unwrap()
+        }
+    }
+    pub struct Iter<'a, T> {
+        v: &'a Vec<T>,
+        i: usize,
+    }
+    impl<'a, T> Iterator for Iter<'a, T> {
+        type Item = &'a T;
+        fn next(&mut self) -> Option<&'a T> {
+            if self.i < self.v.len {
+                self.i += 1;
+                self.v.buf[self.i - 1].as_ref()
+            } else {
+                None
+            }
+        }
+    }
+    impl<'a, T> IntoIterator for &'a Vec<T> {
+        type Item = &'a T;
+        type IntoIter = Iter<'a, T>;
+        fn into_iter(self) -> Iter<'a, T> {
+            self.iter()
         }
     }
 }
@@ -54,7 +159,7 @@ pub mod sem {
     use crate::graph::{AigEdge, AigModule, AigNode};
     use crate::ir::CellKind;
 
-    pub const MAXN: usize = 10;
+    pub const MAXN: usize = 9;
     /// values of all nodes of a small AIG under one assignment: node i of kind Input takes inp[i], Const is false,
     /// And{f0,f1} is value(f0) & value(f1) (fanins must point to lower indices: checked)
     pub fn node_values(aig: &AigModule, inp: &[bool; MAXN]) -> [bool; MAXN] {
@@ -147,7 +252,7 @@ pub mod hx_graph {
     use crate::sem::*;
 
     /// node / polarity round trip for every node index < 2^31
-    #[vp_proof(2)]
+    #[vp_proof(11)]
     pub fn edge_new_round_trip() {
         let n: u32 = kani::any();
         let neg: bool = kani::any();
@@ -158,7 +263,7 @@ pub mod hx_graph {
         assert!(e.raw() == 2 * n + neg as u32, "raw() is not 2*node + polarity");
     }
     /// negate flips only the polarity; negate_if(c) == if c {negate()} else {self}; constants; for every raw edge
-    #[vp_proof(2)]
+    #[vp_proof(11)]
     pub fn edge_negate_algebra() {
         let raw: u32 = kani::any();
         let c: bool = kani::any();
@@ -210,7 +315,7 @@ pub mod hx_graph {
         (a, b, r)
     }
     /// three successive mk_and calls with symbolic operands over everything built so far, starting from {const, 3 inputs}
-    #[vp_proof(9)]
+    #[vp_proof(11)]
     pub fn mk_and_value_frame_and_sharing() {
         let mut m = base_module(3);
         let inp: [bool; MAXN] = kani::any();
@@ -223,7 +328,7 @@ pub mod hx_graph {
         let _ = mk_and_step(&mut m, &inp);
     }
     /// mk_or / mk_xor / mk_mux compute a|b, a^b, s?d1:d0 (these fix the pin order used by cell_fn for Or2 / Xor2 / Mux2)
-    #[vp_proof(9)]
+    #[vp_proof(11)]
     pub fn mk_or_xor_mux_values() {
         let inp: [bool; MAXN] = kani::any();
         let (a, b, c) = (any_edge(3), any_edge(3), any_edge(3));
@@ -246,7 +351,7 @@ pub mod hx_graph {
         }
     }
     /// canary: the mk_and harness reaches a state with a freshly built node whose value is true (must FAIL)
-    #[vp_proof(9)]
+    #[vp_proof(11)]
     pub fn canary_mk_and_builds_nodes() {
         let mut m = base_module(3);
         let inp: [bool; MAXN] = kani::any();
@@ -306,7 +411,7 @@ pub mod hx_techmap {
     }
 
     /// match_mux_pair(a0,a1,b0,b1) == Some((s,d0,d1)) ==> s is a positive edge and (a0&a1)|(b0&b1) == if s {d1} else {d0}, for every assignment
-    #[vp_proof(5)]
+    #[vp_proof(11)]
     pub fn mux_pair_sound() {
         let o = any_ops();
         if let Some((s, d0, d1)) = match_mux_pair(o.e[0], o.e[1], o.e[2], o.e[3]) {
@@ -316,7 +421,7 @@ pub mod hx_techmap {
         }
     }
     /// completeness (doc comment: "is this AND(S, D1) and AND(!S, D0) for some S, D0, D1?"): a genuine pair, D0 != D1, any operand order, either inner first
-    #[vp_proof(5)]
+    #[vp_proof(11)]
     pub fn mux_pair_complete() {
         let o = any_ops();
         let (s, d1, d0) = (o.e[0], o.e[1], o.e[3]);
@@ -338,7 +443,7 @@ pub mod hx_techmap {
         }
     }
     /// match_xor_pair == Some((x,y,t)) ==> x,y positive edges on distinct nodes, top AND value !((a0&a1)|(b0&b1)) == x^y iff t, else == !(x^y)
-    #[vp_proof(5)]
+    #[vp_proof(11)]
     pub fn xor_pair_sound() {
         let o = any_ops();
         if let Some((x, y, t)) = match_xor_pair(o.e[0], o.e[1], o.e[2], o.e[3]) {
@@ -350,7 +455,7 @@ pub mod hx_techmap {
         }
     }
     /// completeness: forms "crossed" AND(x,!y),AND(!x,y) and "same" AND(x,y),AND(!x,!y) on two distinct nodes, every operand order
-    #[vp_proof(5)]
+    #[vp_proof(11)]
     pub fn xor_pair_complete() {
         let nx: u32 = kani::any();
         let ny: u32 = kani::any();
@@ -370,18 +475,18 @@ pub mod hx_techmap {
         assert!(t == same, "match_xor_pair: top_is_xor must be true exactly for form `same`");
     }
     /// canaries: the operand assumptions admit a matching mux / xor (must FAIL)
-    #[vp_proof(5)]
+    #[vp_proof(11)]
     pub fn canary_mux_pair_matches() {
         let o = any_ops();
         assert!(match_mux_pair(o.e[0], o.e[1], o.e[2], o.e[3]).is_none());
     }
-    #[vp_proof(5)]
+    #[vp_proof(11)]
     pub fn canary_xor_pair_matches() {
         let o = any_ops();
         assert!(match_xor_pair(o.e[0], o.e[1], o.e[2], o.e[3]).is_none());
     }
 
-    fn vals_of(v: &[bool; MAXN], es: &[AigEdge]) -> [bool; 4] {
+    fn vals_of(v: &[bool; MAXN], es: &Vec<AigEdge>) -> [bool; 4] {
         let mut r = [false; 4];
         let mut i = 0;
         while i < es.len() && i < 4 {
@@ -401,7 +506,7 @@ pub mod hx_techmap {
     }
 
     /// pick_xor_polarity: for all ref counts the emitted cell, negated iff output_is_negated, is the top AND's positive value
-    #[vp_proof(6)]
+    #[vp_proof(11)]
     pub fn pick_xor_polarity_keeps_function() {
         let (x, y) = (any_edge(7), any_edge(7));
         let top_is_xor: bool = kani::any();
@@ -417,7 +522,7 @@ pub mod hx_techmap {
         assert!(m.inner_ands.len() == 2 && m.inner_ands[0] == ia && m.inner_ands[1] == ib);
     }
     /// pick_or_polarity: top = AND(f0, f1); the emitted Or2/Nor2 over the negated fanins, negated iff output_is_negated, is f0 & f1
-    #[vp_proof(6)]
+    #[vp_proof(11)]
     pub fn pick_or_polarity_keeps_function() {
         let (f0, f1) = (any_edge(7), any_edge(7));
         let (pos, neg) = (any_refs(), any_refs());
@@ -430,7 +535,7 @@ pub mod hx_techmap {
         assert!(m.inner_ands.is_empty());
     }
     /// cell_fn's arity agrees with CellKind::arity for the kinds try_match can emit (guards the pin tables against a new kind)
-    #[vp_proof(2)]
+    #[vp_proof(11)]
     pub fn cell_fn_arity_table() {
         assert!(CellKind::Mux2.arity() == 3 && CellKind::Xor2.arity() == 2 && CellKind::Xnor2.arity() == 2 && CellKind::Or2.arity() == 2 && CellKind::Nor2.arity() == 2);
         assert!(CellKind::And3.arity() == 3 && CellKind::Oa21.arity() == 3 && CellKind::Aoi21.arity() == 3 && CellKind::Aoi22.arity() == 4);
@@ -443,7 +548,7 @@ pub mod hx_techmap {
             0 => NodeRole::Undecided,
             1 => NodeRole::Dead,
             2 => NodeRole::Simple,
-            3 => NodeRole::Compound(CompoundMatch { kind: CellKind::And2, inputs: Vec::new(), inner_ands: Vec::new(), output_is_negated: false }),
+            3 => NodeRole::Compound(CompoundMatch { kind: CellKind::And2, inputs: vec![], inner_ands: vec![], output_is_negated: false }),
             _ => NodeRole::Consumed,
         }
     }
@@ -466,14 +571,17 @@ pub mod hx_techmap {
             _ => unreachable!(),
         }
     }
-    fn any_roles() -> Vec<NodeRole> {
-        let mut role = Vec::with_capacity(8);
+    fn any_roles() -> [NodeRole; 8] {
+        [any_role(), any_role(), any_role(), any_role(), any_role(), any_role(), any_role(), any_role()]
+    }
+    fn arr8(v: &Vec<u32>) -> [u32; MAXN] {
+        let mut a = [0u32; MAXN];
         let mut i = 0;
-        while i < 8 {
-            role.push(any_role());
+        while i < v.len() && i < MAXN {
+            a[i] = v[i];
             i += 1;
         }
-        role
+        a
     }
     fn check_inner(aig: &AigModule, m: &CompoundMatch, f0: AigEdge, f1: AigEdge, rc: &[u32], role: &[NodeRole]) {
         let mut k = 0;
@@ -489,7 +597,7 @@ pub mod hx_techmap {
     }
     /// try_match == Some(m) ==> cell_fn(m.kind, m.inputs) ^ m.output_is_negated == value(root) for EVERY assignment, refcounts, polarity refs and roles;
     /// absorbed nodes are And fanins of root with refcount 1 and role Simple
-    #[vp_proof(10)]
+    #[vp_proof(11)]
     pub fn try_match_emits_cell_with_root_function() {
         let aig = any_graph();
         let (f0, f1) = root_fanins(&aig);
@@ -504,16 +612,17 @@ pub mod hx_techmap {
     }
     /// with the graph's REAL reference counts (compute_refcount / compute_polarity_refs over the graph + two symbolic sinks): absorbed nodes are distinct and
     /// no emitted input points at an absorbed node or at root; a single-reference Simple AND fanin with both root edges negated is always absorbed (doc: 4-input family)
-    #[vp_proof(10)]
+    #[vp_proof(11)]
     pub fn try_match_absorbs_only_private_nodes() {
         let mut aig = any_graph();
         let (f0, f1) = root_fanins(&aig);
         aig.add_sink(200, any_edge(7));
         aig.add_sink(201, any_edge(7));
-        let rc = compute_refcount(&aig);
+        let rc = arr8(&compute_refcount(&aig));
         let (pos, neg) = compute_polarity_refs(&aig);
+        let (pos, neg) = (arr8(&pos), arr8(&neg));
         let role = any_roles();
-        if let Some(m) = try_match(&aig, ROOT, f0, f1, &rc, &pos, &neg, &role) {
+        if let Some(m) = try_match(&aig, ROOT, f0, f1, &rc[..8], &pos[..8], &neg[..8], &role) {
             check_inner(&aig, &m, f0, f1, &rc, &role);
             if m.inner_ands.len() == 2 {
                 assert!(m.inner_ands[0] != m.inner_ands[1], "the same node absorbed twice");
@@ -532,7 +641,7 @@ pub mod hx_techmap {
         }
     }
     /// compute_refcount counts fanin + sink references; compute_polarity_refs splits the same count by edge polarity
-    #[vp_proof(10)]
+    #[vp_proof(11)]
     pub fn refcount_counts_references() {
         let mut aig = any_graph();
         let (s0, s1) = (any_edge(7), any_edge(7));
@@ -567,7 +676,7 @@ pub mod hx_techmap {
         assert!(rc[n as usize] == p + q, "compute_refcount: wrong count");
     }
     /// inner_of == Some <=> (node != root, refcount 1, role Simple, And node), and it reports that node's fanins and the edge polarity
-    #[vp_proof(10)]
+    #[vp_proof(11)]
     pub fn inner_of_is_the_absorbable_test() {
         let aig = any_graph();
         let e = any_edge(7);
@@ -587,7 +696,7 @@ pub mod hx_techmap {
         }
     }
     /// canary: every template family is reachable in the try_match harness (must FAIL): a Mux2 match exists
-    #[vp_proof(10)]
+    #[vp_proof(11)]
     pub fn canary_try_match_reaches_mux() {
         let aig = any_graph();
         let (f0, f1) = root_fanins(&aig);
@@ -638,7 +747,7 @@ pub mod hx_rewrite {
     use crate::spec::{pattern_value_at, value_at, wf_pattern};
 
     /// resolve_pat_edge(node_edges, (k, neg)) == node_edges[k].negate_if(neg)
-    #[vp_proof(8)]
+    #[vp_proof(11)]
     pub fn resolve_pat_edge_selects_and_negates() {
         let raws: [u32; 7] = kani::any();
         let mut es = Vec::with_capacity(7);
@@ -704,20 +813,20 @@ pub mod hx_rewrite {
         assert!(edge_val(&v, out) == pattern_value_at(&pat, x), "instantiate_pattern: value of the built edge != pattern evaluated on the leaf values");
     }
     /// for every well-formed pattern with n gates, every four leaf edges, every assignment: the instantiated edge computes the pattern
-    #[vp_proof(9)]
+    #[vp_proof(11)]
     pub fn instantiate_pattern_computes_pattern_0_1_gates() {
         instantiate(0, false);
         instantiate(1, false);
     }
-    #[vp_proof(9)]
+    #[vp_proof(11)]
     pub fn instantiate_pattern_computes_pattern_2_gates() {
         instantiate(2, false);
     }
-    #[vp_proof(9)]
+    #[vp_proof(11)]
     pub fn instantiate_pattern_computes_pattern_3_gates() {
         instantiate(3, false);
     }
-    #[vp_proof(9)]
+    #[vp_proof(11)]
     pub fn canary_instantiate_builds_three_nodes() {
         instantiate(3, true);
     }
@@ -746,7 +855,7 @@ pub mod hx_rewrite {
         f
     }
     /// merge_cuts on strictly ascending cuts (<= 4 leaves each, arbitrary u32 node ids): Some <=> |union| <= 4, then the strictly ascending union, cone = a + b + 1
-    #[vp_proof(10)]
+    #[vp_proof(11)]
     pub fn merge_cuts_is_sorted_union() {
         let (a, b) = (any_cut(u32::MAX), any_cut(u32::MAX));
         let mut common = 0;
@@ -775,7 +884,7 @@ pub mod hx_rewrite {
             None => assert!(union > 4, "merge_cuts dropped a union with <= 4 leaves"),
         }
     }
-    #[vp_proof(10)]
+    #[vp_proof(11)]
     pub fn canary_merge_cuts_overflows() {
         let (a, b) = (any_cut(u32::MAX), any_cut(u32::MAX));
         assert!(merge_cuts(&a, &b).is_some());
@@ -882,16 +991,14 @@ pub mod hx_rewrite_lib {
         cut: Cut,
         tt: Tt4,
     }
-    /// one cut of the root with everything try_library_rewrite learns about it: 2..=4 (also 0,1,>4: skipped by the code) ascending leaves over old nodes 0..=5,
-    /// a symbolic cone size, the cut's table tt, and (canonical, t, pattern) constrained only by the contracts of unit npn
-    fn any_case(slot: usize, gates: u8) -> CutCase {
-        let n: u8 = kani::any();
-        let l: [u32; 4] = kani::any();
+    /// one cut of the root with everything try_library_rewrite learns about it: `nl` strictly ascending leaves over old nodes 0..=5 (nl is concrete in every
+    /// harness; 0..=5 are all covered), a symbolic cone size, the cut's table tt, and (canonical, t, pattern) constrained only by the contracts of unit npn
+    fn any_case(slot: usize, gates: u8, nl: usize) -> CutCase {
+        let l: [u32; 5] = kani::any();
         let cs: u32 = kani::any();
-        kani::assume(n <= 4);
-        let mut leaves = Vec::with_capacity(4);
+        let mut leaves = Vec::with_capacity(5);
         let mut i = 0usize;
-        while i < n as usize {
+        while i < nl {
             kani::assume(l[i] <= 5 && (i == 0 || l[i - 1] < l[i]));
             leaves.push(l[i]);
             i += 1;
@@ -928,9 +1035,9 @@ pub mod hx_rewrite_lib {
         }
         value_at(c.tt, z)
     }
-    fn one_cut(gates: u8, canary: bool) {
+    fn one_cut(gates: u8, nl: usize, canary: bool) {
         oracle::reset();
-        let c = any_case(0, gates);
+        let c = any_case(0, gates, nl);
         let mut new_aig = any_dest();
         let hi = (new_aig.nodes.len() - 1) as u8;
         let ne = any_new_edges(hi);
@@ -945,43 +1052,56 @@ pub mod hx_rewrite_lib {
                 assert!(new_aig.nodes.len() != before.0 + gates as usize, "canary: a full-size replacement is reachable");
                 return;
             }
-            assert!(c.cut.leaves.len() >= 2 && c.cut.leaves.len() <= 4);
+            assert!(nl >= 2 && nl <= 4, "a cut with < 2 or > 4 leaves was used");
             let v = node_values(&new_aig, &inp);
             assert!(edge_val(&v, e) == promised(&c, &ne, &v), "try_library_rewrite: the replacement edge does not compute the cut function on the mapped leaves");
         }
     }
-    /// Some(e) ==> value(e) == tt(values of new_edge[leaf_i]) for every assignment, every (canonical, t, pattern) allowed by unit npn's contracts
+    /// Some(e) ==> value(e) == tt(values of new_edge[leaf_i]) for every assignment, every (canonical, t, pattern) allowed by unit npn's contracts; 2, 3, 4 leaves
     #[vp_proof(17)]
     pub fn try_library_rewrite_computes_cut_function_0_1_gates() {
-        one_cut(0, false);
-        one_cut(1, false);
+        one_cut(0, 2, false);
+        one_cut(0, 3, false);
+        one_cut(0, 4, false);
+        one_cut(1, 2, false);
+        one_cut(1, 3, false);
+        one_cut(1, 4, false);
     }
     #[vp_proof(17)]
     pub fn try_library_rewrite_computes_cut_function_2_gates() {
-        one_cut(2, false);
+        one_cut(2, 2, false);
+        one_cut(2, 3, false);
+        one_cut(2, 4, false);
     }
     #[vp_proof(17)]
     pub fn try_library_rewrite_computes_cut_function_3_gates() {
-        one_cut(3, false);
+        one_cut(3, 2, false);
+        one_cut(3, 3, false);
+        one_cut(3, 4, false);
+    }
+    /// cuts with 0, 1 or 5 leaves are never used
+    #[vp_proof(17)]
+    pub fn try_library_rewrite_skips_trivial_and_wide_cuts() {
+        one_cut(1, 0, false);
+        one_cut(1, 1, false);
+        one_cut(1, 5, false);
     }
     #[vp_proof(17)]
     pub fn canary_try_library_rewrite_replaces() {
-        one_cut(2, true);
+        one_cut(2, 3, true);
     }
     /// two cuts of the same root (their tables describe the same root value on the mapped leaves): whichever wins the size comparison, the edge is right
     #[vp_proof(17)]
     pub fn try_library_rewrite_best_of_two_cuts() {
         oracle::reset();
-        let c0 = any_case(0, 1);
-        let c1 = any_case(1, 2);
+        let c0 = any_case(0, 1, 2);
+        let c1 = any_case(1, 2, 3);
         let mut new_aig = any_dest();
         let hi = (new_aig.nodes.len() - 1) as u8;
         let ne = any_new_edges(hi);
         let inp: [bool; MAXN] = kani::any();
         let old = AigModule::new();
         let v0 = node_values(&new_aig, &inp);
-        // both cuts reach compute_cut_tt (the oracle hands out slots in call order); the skip conditions are covered by the one-cut harnesses
-        kani::assume(c0.cut.leaves.len() >= 2 && c1.cut.leaves.len() >= 2);
         let want = promised(&c0, &ne, &v0);
         kani::assume(want == promised(&c1, &ne, &v0));
         let cuts = vec![Cut { leaves: c0.cut.leaves.clone(), cone_size: c0.cut.cone_size }, Cut { leaves: c1.cut.leaves.clone(), cone_size: c1.cut.cone_size }];
